@@ -2600,6 +2600,8 @@ class PyCdlib:
             for sec in self.eltorito_boot_catalog.sections:
                 for entry in sec.section_entries:
                     self._check_for_eltorito_boot_info_table(entry.inode)
+            for entry in self.eltorito_boot_catalog.standalone_entries:
+                self._check_for_eltorito_boot_info_table(entry.inode)
 
         # Now we look for the 'version' volume descriptor, common on ISOs made
         # with genisoimage or mkisofs.  This volume descriptor doesn't have any
@@ -3980,6 +3982,8 @@ class PyCdlib:
             for sec in self.eltorito_boot_catalog.sections:
                 for entry in sec.section_entries:
                     eltorito_entries.add(id(entry.inode))
+            for entry in self.eltorito_boot_catalog.standalone_entries:
+                eltorito_entries.add(id(entry.inode))
 
             if id(ino) in eltorito_entries:
                 raise pycdlibexception.PyCdlibInvalidInput("Cannot remove a file that is referenced by El Torito; use 'rm_eltorito' to remove El Torito, or use 'rm_hard_link' to hide the entry")
@@ -5829,6 +5833,9 @@ class PyCdlib:
         for sec in self.eltorito_boot_catalog.sections:
             for entry in sec.section_entries:
                 entries_to_remove.append(entry)
+        # (Entries without a section header; see _link_eltorito().)
+        for entry in self.eltorito_boot_catalog.standalone_entries:
+            entries_to_remove.append(entry)
 
         for entry in entries_to_remove:
             if entry.inode is not None:
